@@ -173,5 +173,14 @@ CHECKS["C13"] = {
     "quick": {"checks": 120, "timeout": 1500, "env": {"VERIF_C13_RUNS": 60}},
     "thorough": {"checks": 1, "timeout": 3400, "env": {"VERIF_C13_ROUNDS": 8}},
 }
+CHECKS["C14"] = {
+    "pkg": "./props/c14", "race": True, "engine": "rapid+race-detector",
+    "level": "exploration",
+    "technique": "property-based testing (rapid) of generated concurrent request mixes against the real daemon built with the Go race detector; per-request isolated-verdict oracle",
+    "level_text": "Generated mixes of 4-64 requests (sign over 5 signature types x 7 keys incl. two behind a latency-injecting recording token x 3 digests x generated bodies; list-keys; key-info incl. forbidden and unknown keys; health) are issued by 2-32 concurrent clients over TLS to the real daemon with GOMAXPROCS in {2,4,16}, token cache expiry 1 s and an optional token rate limit; one mix in six shuts the daemon down while a request is parked inside the token. Each response is compared with its isolated verdict (signature applied to that request's own body verifies under relic's verifier and names that request's key and digest; listings equal the configuration), audit records are counted, and the whole run is under the race detector.",
+    "level_note": "Interleavings are sampled by repetition, not enumerated; the race detector only sees accesses that happen. PKCS#11/cloud tokens and the worker subprocess path are not exercised here.",
+    "quick": {"checks": 40, "timeout": 900, "vmem_kb": 0},
+    "thorough": {"checks": 1200, "timeout": 3400, "vmem_kb": 0, "shards": 4},
+}
 for _pid in CHECKS:
     NOT_APPLICABLE.pop(_pid, None)
